@@ -155,4 +155,73 @@ example :
         | _ => none)
      | _ => none) = some (4, 82) := by decide
 
+
+/-- **n pushes of characters of any width (1–4 bytes) cost O(log n) reallocations.** Pushing the
+characters `cs` (each a valid text of 1 to 4 bytes) one by one onto an exclusively owned heap string
+of capacity `c₀ > 16` (allocator willing, sizes far from the 56-bit limit) succeeds, the text is
+`t ++ cs.flatten`, and the number `q` of allocator requests and the final capacity `c` satisfy
+`3^q · (c₀ − 10) ≤ 2^q · (c − 10)` and `c ≤ max c₀ (3·len/2)`: the capacity (less ten) grows by at
+least 3/2 per request — a request happens only when fewer than four bytes are free — and never
+exceeds 3/2 of the final length -/
+theorem char_pushes_log {ocf base st} : ∀ (cs : List Bytes) (hp : Heap) (r : Handle) (t : Bytes),
+    Good ocf base st hp r t → Unique hp r → 16 < capOf hp r →
+    (∀ s ∈ cs, Valid s ∧ 1 ≤ s.length ∧ s.length ≤ 4) →
+    2 * (t.length + cs.flatten.length) ≤ MAX_LEN →
+    ∃ hp' r', pushLoop never st hp r (cs.map some) = .ok () hp' r' ∧
+      Good ocf base st hp' r' (t ++ cs.flatten) ∧ Unique hp' r' ∧ hp.reqs ≤ hp'.reqs ∧ capOf hp r ≤ capOf hp' r' ∧
+      3 ^ (hp'.reqs - hp.reqs) * (capOf hp r - 10) ≤ 2 ^ (hp'.reqs - hp.reqs) * (capOf hp' r' - 10) ∧
+      capOf hp' r' ≤ max (capOf hp r) (3 * (t.length + cs.flatten.length) / 2) := by
+  intro cs
+  induction cs with
+  | nil =>
+    intro hp r t g hu hcap _ _
+    refine ⟨hp, r, rfl, by simpa using g, hu, Nat.le_refl _, Nat.le_refl _, by simp, by omega⟩
+  | cons s cs ih =>
+    intro hp r t g hu hcap hch hsmall
+    have hML := Tie.maxLen_eq
+    obtain ⟨hsv, hs1, hs4⟩ := hch s (List.mem_cons_self ..)
+    simp only [List.flatten_cons, List.length_append] at hsmall
+    have hne : s ≠ [] := by intro h; rw [h] at hs1; simp at hs1
+    obtain ⟨hp1, r1, hpush, g1, hu1, hcase⟩ := push_unique_heap g hu hcap s hsv hne (by omega)
+    have hlen_le : t.length ≤ capOf hp r := good_len_le_cap g
+    have hstep : hp.reqs ≤ hp1.reqs ∧ capOf hp r ≤ capOf hp1 r1 ∧ 16 < capOf hp1 r1 ∧
+        ((hp1.reqs = hp.reqs ∧ capOf hp1 r1 = capOf hp r) ∨
+         (hp1.reqs = hp.reqs + 1 ∧ 3 * (capOf hp r - 10) ≤ 2 * (capOf hp1 r1 - 10) ∧
+          capOf hp1 r1 ≤ 3 * (t.length + s.length) / 2)) := by
+      rcases hcase with ⟨_, hq, hc⟩ | ⟨hlt, hq, hc⟩
+      · exact ⟨by omega, by omega, by omega, Or.inl ⟨hq, hc⟩⟩
+      · have hge := growth_ge_one_and_a_half t.length s.length (by omega)
+        have hnd := growth_ge_need t.length s.length (by omega)
+        have heq := growth_eq t.length s.length (by omega) (by omega)
+        refine ⟨by omega, by omega, by omega, Or.inr ⟨hq, by omega, by omega⟩⟩
+    obtain ⟨hq1, hc1, hcap1, hcost⟩ := hstep
+    have hsmall1 : 2 * ((t ++ s).length + cs.flatten.length) ≤ MAX_LEN := by simp only [List.length_append]; omega
+    obtain ⟨hp', r', hloop, g', hu', hq', hc', hpow, hupper⟩ :=
+      ih hp1 r1 (t ++ s) g1 hu1 hcap1 (fun x hx => hch x (List.mem_cons_of_mem _ hx)) hsmall1
+    refine ⟨hp', r', ?_, by simpa [List.append_assoc] using g', hu', by omega, by omega, ?_, ?_⟩
+    · simp only [List.map_cons, pushLoop, hpush]; exact hloop
+    · rcases hcost with ⟨hq0, hc0⟩ | ⟨hq0, h32, _⟩
+      · rw [hq0, hc0] at hpow; exact hpow
+      · have hqq : hp'.reqs - hp.reqs = (hp'.reqs - hp1.reqs) + 1 := by omega
+        rw [hqq, Nat.pow_succ, Nat.pow_succ]
+        calc 3 ^ (hp'.reqs - hp1.reqs) * 3 * (capOf hp r - 10)
+            = 3 ^ (hp'.reqs - hp1.reqs) * (3 * (capOf hp r - 10)) := by rw [Nat.mul_assoc]
+          _ ≤ 3 ^ (hp'.reqs - hp1.reqs) * (2 * (capOf hp1 r1 - 10)) := Nat.mul_le_mul_left _ h32
+          _ = 2 * (3 ^ (hp'.reqs - hp1.reqs) * (capOf hp1 r1 - 10)) := by
+                rw [← Nat.mul_assoc, Nat.mul_comm _ 2, Nat.mul_assoc]
+          _ ≤ 2 * (2 ^ (hp'.reqs - hp1.reqs) * (capOf hp' r' - 10)) := Nat.mul_le_mul_left _ hpow
+          _ = 2 ^ (hp'.reqs - hp1.reqs) * 2 * (capOf hp' r' - 10) := by
+                rw [← Nat.mul_assoc, Nat.mul_comm 2 _]
+    · simp only [List.length_append, List.flatten_cons] at hupper ⊢
+      rcases hcost with ⟨_, hc0⟩ | ⟨_, _, hup⟩ <;> omega
+
+-- non-vacuity: 3-byte characters pushed onto a 17-byte heap string
+example :
+    (match fromStr never {} (List.replicate 17 0x61) with
+     | (some r, hp) => (match pushLoop never [] hp r ((List.replicate 12 [0xE2, 0x82, 0xAC]).map some) with
+        | .ok _ hp' r' => some (hp'.reqs - hp.reqs, capOf hp' r')
+        | _ => none)
+     | _ => none) = some (4, 70) := by decide
+
+
 end LS.C12
